@@ -418,6 +418,16 @@ class ArrayQuantity(GenericQuantity, np.ndarray):
             return np.asarray(outarr)
         return outarr
 
+    def __reduce__(self):
+        # ndarray's pickle support knows nothing about the units: carry them
+        # along, otherwise an unpickled array quantity has none.
+        (constructor, args, state) = np.ndarray.__reduce__(self)
+        return (constructor, args, state + (self._units,))
+
+    def __setstate__(self, state):
+        self._units = state[-1]
+        np.ndarray.__setstate__(self, state[:-1])
+
     def __getitem__(self, idx):
         result = np.ndarray.__getitem__(self, idx)
         if not isinstance(result, np.ndarray):
